@@ -38,7 +38,7 @@ func verifC10MemDiscipline() {
 	}
 	v := verifNondetBytes("v", vlen)
 
-	verifGuardedBy(d.l)
+	verifGuardedBy(d)
 	verifSharedReach(d.blocks)
 	verifMonitor(true)
 	panicked := verifTry(func() { verifC10Op(d, op, a, buf, v) })
